@@ -1,5 +1,5 @@
 ENGINES = [
-    {"name": "pyscan", "path": "vt/", "serves_properties": ["C19", "C20"],
+    {"name": "pyscan", "path": "vt/", "serves_properties": ["C13", "C19", "C20"],
      "kind_free_text": "runtime monitoring of the real Python scanner modules imported from /repo's working tree: recorded events judged by independent reference models, icontract invariants on live objects"},
 ]
 NOTES = "All checks: ./check <id> --tier quick|thorough [--seed N]; VERIF_SEED/VERIF_TIER honoured. Exit 0 held / 1 VIOLATION / 2 INCONCLUSIVE. See DESIGN.md."
@@ -11,3 +11,7 @@ add('C20', 'pyscan', 'runtime monitoring: generated XMLWriter operation sequence
 add('C19', 'pyscan', 'runtime monitoring: icontract postcondition (reference model without regexes) on the real resolve_from_ldd_output + harness oracle for the SystemExit path + real subprocess path through resolve_shlibs/ldd_wrapper and libtool archives',
     'held on the executions produced: for every generated listing/request list respecting the side condition the real function returned exactly the reference files or raised SystemExit naming every unresolved library; upstream shlibs tests re-run with the contract on',
     'trusted: the 20-line reference predicate; listings use LF/CRLF and blank/tab separators; names without "/"', 'DESIGN.md 4 C19')
+
+add('C13', 'pyscan', 'runtime monitoring: generated headers driven through the real scanner passes (stand-in C front end), emitted GIR judged by a model-derived reference; icontract postcondition on Transformer._enum_common_prefix',
+    'held on the executions produced: every enum/flags/constant of every generated header was found exactly once with the expected kind, member order, identifiers, exact values, whole-word-stripped names, type and in-range value; 5 recorded known findings (unsigned constant types that are never wrapped)',
+    'trusted: stand-in C parser (reproduces 8 upstream expected GIRs byte for byte), stub GLib GIR; signed constants generated in range', 'DESIGN.md 4 C13')
